@@ -55,7 +55,8 @@ def generate(ctx):
                # reach the step time through the dt setter after construction (retimed connection) instead of the constructor
                "retimed_from": None if substep else rng.choice([None, None, 1.0, 0.5, 2.0]), "inplace": rng.random() < 0.5,
                # reach the maximum delay through the synapse's delay setter (built with a smaller / larger one)
-               "redelayed_from": None if substep else rng.choice([None, None, 0, 1, 2 * K]), "substep": substep}
+               "redelayed_from": None if substep else rng.choice([None, None, 0, 1, 2 * K]), "substep": substep,
+               "conv_geom": rng.choice([None, "strided", "dilated"])}
 
 
 def _synctor(desc):
@@ -80,6 +81,11 @@ def _build(desc, delayed):
         m = LinearDirect((4,), dt, **kw)
     elif c == "lateral":
         m = LinearLateral((3,), dt, **kw)
+    elif desc.get("conv_geom") == "strided":
+        # two channels, a non-square kernel, unequal strides and padding: more windows and taps, same per-synapse time shift
+        m = Conv2D(5, 4, 2, 2, dt, (2, 3), stride=(2, 1), padding=(1, 0), **kw)
+    elif desc.get("conv_geom") == "dilated":
+        m = Conv2D(5, 5, 1, 3, dt, (2, 2), dilation=2, padding=1, **kw)
     else:
         m = Conv2D(4, 4, 1, 2, dt, (2, 2), **kw)
     if desc["dtype"] == "float64":
@@ -196,6 +202,8 @@ def run_case(ctx, desc):
             ctx.count("redelayed_connections")
     except Exception as e:  # noqa: BLE001
         return ctx.violation(ctx.exc_signature(e, f"construct.{conn}.{syn}"), f"{type(e).__name__}: {str(e)[:140]}", desc)
+    if conn == "conv" and desc.get("conv_geom"):
+        ctx.count("delayed_conv_with_stride_padding_or_dilation")
     W = torch.randn(D.weight.shape, generator=tg, dtype=torch.float64).to(tdt)
     D.weight, U.weight = W.clone(), W.clone()
     if desc["bias"]:
